@@ -44,6 +44,9 @@ CHECKS = {
  "C10": dict(cat="fault_enumeration", tech="TLA+ protocol model (PlaceProtocol.tla: invariants + liveness, all interleavings) + exhaustive per-instance fault enumeration (throw at every callback index) validated by TLC against the shared setter contract",
              text="Design level: TLC explores every interleaving of calls, callbacks, exceptions and setters of the protocol model (the unrepaired variant Guard=FALSE is kept and violates IdleMeansUnlocked). Code level: for every instance every callback index is used once as the fault point; setters inside callbacks and after each kind of end are validated event by event.",
              ref="5/C10", engine="tlc-design; record + tlc-trace"),
+ "C16": dict(cat="model_checking", tech="TLA+ hierarchy model (DensityHier.tla: all interleavings of refine/coarsen/move) executed by the real object + TLC validation of every observed state (DensityOps: tiling, capacity, partition, coordinates)",
+             text="Design level: TLC explores all interleavings of the view-changing operations and a contract-level move on small grids (tiling, partition, aggregation invariants) and every history is executed by the real HierarchicalDensityPlacement/DensityLegalizer; code level: random regions, parameters and operation sequences, and grids built from circuits; after every operation TLC recomputes capacities from the regions and checks the partition and the coordinates.",
+             ref="5/C16", engine="tlc-design; record + tlc-trace"),
  "C19": dict(cat="model_checking", tech="finite table of invalid-input attempts executed under ASan+UBSan, outcomes validated by TLC against PlaceAPI.tla (CtorFails, ParamCheckFails, SetterFails)",
              text="The attempt space (efforts, every field at/around each bound, every setter with wrong lengths, bad nets) is finite and enumerated completely; expected outcomes come from the contract operators evaluated by TLC; sanitizer reports and aborts are events outside the alphabet.",
              ref="5/C19", engine="record + tlc-trace"),
